@@ -462,6 +462,7 @@ fn parser_family(st: &mut Stats, quick: bool) {
             for cuts in pl {
                 s.evaluations += 1;
                 s.transitions += 1;
+                let _call = crate::report::enter(wire);
                 let r = std::panic::catch_unwind(|| {
                     let mut rd = CutReader::new(wire, &cuts);
                     Response::from_stream(&mut rd)
